@@ -69,7 +69,7 @@ def make_call(rng, nprng, ty, d, n, kind):
         A = design(Sr * (pre if pre else 1.0), Nr)
         sv = np.linalg.svd(A, compute_uv=False)
         condM = (sv[0] / sv[-1]) ** 2 if sv[-1] > 0 else float("inf")
-        limit = 1e6 if ty == "f64" else rng.choice([1e2, 1e3, 1e6])
+        limit = 1e6 if ty == "f64" else rng.choice([1e2, 1e3, 5e4, 1e6])
         if condM < limit:
             break
     mode = rng.choice(["a", "c", "c"])
@@ -288,7 +288,8 @@ def oracle(case, out):
         STATS["max_cond_normal_matrix"] = max(STATS["max_cond_normal_matrix"], condM if math.isfinite(condM) else 0)
         eps = EPS[ty]
         tiny_sv = bool((sv[-1] ** 2) <= eps * 1.0000001)      # what the ORIGINAL absolute test of LeastSquares rejects
-        if not math.isfinite(condM) or condM >= 1e6 or 1000 * eps * condM > 0.05:
+        # judged as long as 50*eps*cond(J^T J) <= 0.5 (single precision: cond up to ~8e4); see checks/C07.py
+        if not math.isfinite(condM) or condM >= 1e6 or 50 * eps * condM > 0.5:
             STATS["undecidable_in_precision"] += 1
             continue
         H = [vals[i * (d + 1):(i + 1) * (d + 1)] for i in range(d + 1)]
@@ -307,8 +308,8 @@ def oracle(case, out):
         Af = np.array([[float(a) for a in row] for row in A])
         cf = np.array([float(a) for a in c])
         coln = np.linalg.norm(Af, axis=0)
-        rtol = max(BASE[ty], 100 * eps * condM)
-        etol = max(BASE[ty], 1000 * eps * condM)
+        rtol = max(BASE[ty], 20 * eps * condM)
+        etol = max(BASE[ty], 5 * eps * condM)
         Ax = Af @ np.array(x)
         # Y_i = n_i.(t_i - s_i) is a difference of coordinates: its rounding-level scale is |n_i|.(|t_i| + |s_i|), not |Y_i|
         # (the preconditioned overloads scale both point sets in floating point first, so the cancellation is not exact)
@@ -411,9 +412,9 @@ def compare(case, il, ml):
         pre = calls[ci][1]
         sv = np.linalg.svd(design(S * (pre if pre else 1.0), Nn), compute_uv=False)
         condM = (sv[0] / sv[-1]) ** 2 if sv[-1] > 0 else float("inf")
-        if not math.isfinite(condM) or 1000 * EPS[ty] * condM > 0.05:
+        if not math.isfinite(condM) or 50 * EPS[ty] * condM > 0.5:
             continue
-        tol = max(BASE[ty], 1000 * EPS[ty] * condM) * 10
+        tol = max(BASE[ty], 50 * EPS[ty] * condM) * 10
         if (sv[-1] ** 2) <= EPS[ty] * 1.0000001:
             tol = max(tol, 1e-6)
         va = [parse_num(v) for v in a.split()]
